@@ -27,17 +27,21 @@ NAN = None  # NaN is written as None inside case literals (repr(nan) is not a li
 
 def RULE(tier):
     n = NMAX[tier]
+    q = tier == "quick"
     return (
-        f"every 1-d array of length 0..{n} over {{0,1,2,NaN}} (floats) resp. {{0,1,2}} (ints) x EVERY chunking (plus every chunking with "
-        "empty chunks, <= 3 chunks, for the cheap kinds) x: unique (all 8 flag combinations; 2-d inputs (2,2)); bincount (weights none/float/int, "
-        "minlength 0/2/4, split_every None/2); histogram (int bins+range, edge arrays as list/ndarray/dask, weights, density None/False/True); "
-        "histogram2d (paired x,y; int/tuple bins+range, edge arrays, weights, density); digitize (all monotone bins of length <= 3 over {0,1,2}, "
-        "both directions, right); searchsorted (every sorted a incl. trailing NaNs x every chunking, 1-d/2-d probe vectors in 3 chunkings, both "
-        "sides); isin (every test set of size <= 2 over {0,2,NaN} x chunkings, invert, assume_unique); nonzero/argwhere/flatnonzero/"
-        "count_nonzero (1-d and 2-d over {0,1,NaN}, every axis); unravel_index/ravel_multi_index (every index vector of length <= 3, orders C/F, "
-        "modes raise/wrap/clip); coarsen (sum/max/mean, every divisor, trim_excess, 1-d n<=6 and 2-d); compress (every condition of length "
-        "<= n+1 as list/ndarray/dask, every axis). Oracle: value, dtype, lazy shape/chunks vs computed blocks equal NumPy's result. "
-        "non-trivial = >= 2 chunks on the main input."
+        f"every 1-d array of length 0..{n} over {{0,1,2,NaN}} (floats) resp. {{0,1,2}} (ints) x EVERY chunking, plus every <=3-part chunking "
+        f"with empty chunks for lengths <= {'2-3' if q else '3-5'}"
+        + (f" (quick: at length {n} a 3-letter alphabet and a reduced parameter grid, full grids below)" if q else "")
+        + " x: unique (all 8 flag combinations; 2-d inputs); bincount (weights none/float/int, minlength 0/2/4, split_every None/2); histogram "
+        "(11 bin specs: int bins+range incl. a degenerate range, edge arrays as list/ndarray/dask array; weights none/float/int; density "
+        "None/False/True); histogram2d (paired x,y incl. NaN; int/tuple bins+range, edge arrays, weights, density); digitize (monotone bins "
+        "of length <= 3 over {0,1,2}, increasing and decreasing, right); searchsorted (every sorted a incl. trailing NaNs x every chunking, "
+        "1-d probe vector in 3 chunkings and a 2-d probe, both sides); isin (test sets of size <= 2 over {0,2,NaN} x their chunkings, invert, "
+        "assume_unique on unique inputs); nonzero/argwhere/flatnonzero/count_nonzero (1-d and (2,2),(2,3) over {0,1,NaN}, every axis); "
+        "unravel_index/ravel_multi_index (every index vector of length <= 3(2), orders C/F, modes raise/wrap/clip, stacked and tuple input); "
+        "coarsen (sum/max/mean, every divisor <= 4, trim_excess, 1-d n<=6 and three 2-d shapes x every chunking); compress (every condition "
+        "of length <= n+1 as list/ndarray/dask array, every axis, 1-d and 2-d). Oracle: value, dtype, lazy shape/chunks and per-block shapes "
+        "equal NumPy's result. non-trivial = >= 2 chunks on the main input."
     )
 
 
@@ -116,19 +120,19 @@ SHAPES2 = [(2, 2), (2, 3)]
 
 
 # ---------------------------------------------------------------------------------------------- shards / cases
-KINDS = [
-    ("unique_f", 6),
+KINDS = [  # (kind, number of quick shards ~ one per 5 CPU-seconds)
+    ("unique_f", 8),
     ("unique_i", 3),
     ("unique2", 1),
-    ("bincount", 3),
-    ("hist", 6),
-    ("hist2", 3),
-    ("digitize", 3),
-    ("ss", 4),
+    ("bincount", 4),
+    ("hist", 10),
+    ("hist2", 4),
+    ("digitize", 4),
+    ("ss", 6),
     ("isin", 6),
-    ("nz", 4),
-    ("unravel", 2),
-    ("ravelmi", 2),
+    ("nz", 6),
+    ("unravel", 3),
+    ("ravelmi", 1),
     ("coarsen", 1),
     ("compress", 2),
 ]
@@ -138,7 +142,7 @@ ISIN_TESTS = [(), (0,), (2,), (NAN,), (0, 2), (2, 0), (0, NAN), (NAN, 0), (2, 2)
 
 
 def shards(tier):
-    mult = 1 if tier == "quick" else 6
+    mult = 1 if tier == "quick" else 5
     return [(k, p, n * mult) for k, n in KINDS for p in range(n * mult)]
 
 
